@@ -23,7 +23,7 @@ fn parse_large(bytes: &[u8], radix: Digit) -> Result<UBig, ParseError>
 
     // while (chunk_bytes << radix_powers.len()) < bytes.len()
     // To avoid overflow:
-    /*@ proof { lemma_usize_shr((bytes.len() - 1) as usize, 1); assert(pow2(0) == 1 && pow2(1) == 2 * pow2(0)); } @*/
+    /*@ proof { assert(pow2(0) == 1); } @*/
     while chunk_bytes <= (bytes.len() - 1) >> radix_powers.len()
     /*@
         invariant
